@@ -121,6 +121,12 @@ class ParserState:
 
         def associator(node: Node) -> Visit:
             association[node].add(platform.name)
+
+            # An #elif or #else following a branch that was already taken
+            # is skipped without being evaluated, as a preprocessor would.
+            if node.is_cont_node() and branch_taken[-1]:
+                return Visit.NEXT_SIBLING
+
             active = node.evaluate_for_platform(
                 platform=platform,
                 filename=self._get_realpath(filename),
